@@ -11,9 +11,9 @@ open Chf.Config
 /-- every section the runtime reads unconditionally is guaranteed present by validation -/
 theorem C20_sound (c : Cfg) (h : validate c = true) : startsOK c = true := by
   simp only [validate, sbiValid, rfValid, abmfValid, Bool.and_eq_true] at h
-  simp only [startsOK, Bool.and_eq_true]
-  obtain ⟨⟨⟨⟨⟨⟨⟨⟨⟨⟨⟨⟨⟨⟨⟨⟨h1, h2⟩, h3⟩, h4⟩, h5⟩, h6⟩, ⟨⟨⟨⟨s1, s2⟩, s3⟩, s4⟩, s5⟩⟩, h8⟩, h9⟩, h10⟩, h11⟩, h12⟩, ⟨r1, r2⟩⟩, h14⟩, h15⟩, h16⟩, h17⟩ := h
-  exact ⟨⟨⟨⟨⟨⟨⟨⟨⟨h1, h4⟩, h6⟩, h12⟩, h14⟩, h11⟩, r1⟩, h15⟩, h16⟩, s5⟩
+  simp only [startsOK, Bool.and_eq_true, Bool.or_eq_true]
+  obtain ⟨⟨⟨⟨⟨⟨⟨⟨⟨⟨⟨⟨⟨⟨⟨⟨h1, _⟩, _⟩, h4⟩, _⟩, h6⟩, ⟨_, s5⟩⟩, _⟩, _⟩, _⟩, h11⟩, h12⟩, ⟨⟨r1, _⟩, _⟩⟩, h14⟩, ⟨h15, _⟩⟩, h16⟩, h17⟩ := h
+  exact ⟨⟨⟨⟨⟨⟨⟨⟨⟨⟨h1, h4⟩, h6⟩, h12⟩, h14⟩, h11⟩, r1⟩, h15⟩, h16⟩, Or.inl h17⟩, by simpa using s5⟩
 
 /-- an unknown service name is rejected -/
 theorem C20_rejects_unknown_service (c : Cfg) (h : c.services ≠ .ok) : validate c = false := by
@@ -36,8 +36,33 @@ theorem C20_https_needs_tls (c : Cfg) (h : c.scheme = .https) (ht : c.sbiTls = f
 
 /-- non-vacuity: the complete baseline validates (and therefore starts) -/
 def baseline (s : Scheme) : Cfg :=
-  ⟨true, true, true, true, true, true, true, true, true, true, true, true, true, true, true, true, true, true, true, true, s, .ok⟩
+  ⟨true, true, true, true, true, true, true, true, true, true, true, true, true, true, true, true, true, true, true, true, s, .ok,
+   .tcp, .tcp, false⟩
 example : validate (baseline .http) = true ∧ validate (baseline .https) = true := by decide
+
+/-- the protocol named in a Diameter section excuses nothing: without the section's tls block the configuration is
+    rejected whatever the two protocols are (the servers and clients read the block unconditionally) -/
+theorem C20_protocol_does_not_excuse_tls (c : Cfg) (p q : Proto) :
+    validate { c with rfProto := p, abmfProto := q, rfTls := false } = false ∧
+    validate { c with rfProto := p, abmfProto := q, abmfTls := false } = false := by
+  constructor <;> simp [validate, rfValid, abmfValid]
+
+/-- a Diameter section without `protocol` is rejected -/
+theorem C20_rejects_missing_protocol (c : Cfg) (h : c.rfProto = .absent ∨ c.abmfProto = .absent) :
+    validate c = false := by
+  rcases h with h | h <;> simp [validate, rfValid, abmfValid, h]
+
+/-- an enabled CGF finds its passive port range: the block is guaranteed by validation, enabled or not -/
+theorem C20_cgf_port_range (c : Cfg) (h : validate c = true) : c.cgf = true ∧ c.cgfPortRange = true := by
+  simp only [validate, Bool.and_eq_true] at h
+  exact ⟨h.1.2, h.2⟩
+
+/-- non-vacuity: other protocols and an enabled CGF validate and start when the blocks are there -/
+example : validate { baseline .https with rfProto := .sctp, abmfProto := .other, cgfEnable := true } = true ∧
+          startsOK { baseline .https with rfProto := .sctp, abmfProto := .other, cgfEnable := true } = true := by decide
+/-- … and a start-up that reads a block validation does not guarantee is what `startsOK` excludes -/
+example : startsOK { baseline .http with cgfEnable := true, cgfPortRange := false } = false ∧
+          startsOK { baseline .http with rfProto := .sctp, rfTls := false } = false := by decide
 
 /-! ### the tags as compiled (regenerated) -/
 
@@ -59,5 +84,20 @@ theorem C20_tags_as_modelled :
     tagOf "Sbi.Port" = some "required,port" ∧
     tagOf "Tls.Pem" = some "type(string),minstringlength(1),required" ∧
     tagOf "Tls.Key" = some "type(string),minstringlength(1),required" := by decide +kernel
+
+def kindOf (field : String) : Option String :=
+  (Chf.Gen.validTags.find? (fun t => t.1 == field)).map (fun t => t.2.1)
+
+/-- the tags and kinds behind the value-dependent parts of the model: `protocol` is required and nothing else hangs on
+    it; the CGF's passive port range is a struct *value* (reading its members cannot fail) whose two members are
+    required, so the block is mandatory although tagged optional -/
+theorem C20_tags_values :
+    tagOf "Diameter.Protocol" = some "required" ∧
+    tagOf "Diameter.HostIPv4" = some "required,host" ∧ tagOf "Diameter.Port" = some "required,port" ∧
+    kindOf "Diameter.Tls" = some "ptr" ∧
+    kindOf "Cgf.PassiveTransferPortRange" = some "struct" ∧
+    tagOf "Cgf.PassiveTransferPortRange" = some "optional" ∧
+    tagOf "<anonymous>.Start" = some "required,port" ∧ tagOf "<anonymous>.End" = some "required,port" ∧
+    tagOf "Cgf.Enable" = some "type(bool)" ∧ tagOf "Cgf.Tls" = some "optional" := by decide +kernel
 
 end Chf.Props.C20
